@@ -79,18 +79,23 @@ def _release_extras(lz, c):
         lz.L().lzma_index_end(c.index_out, None)
     c.index_out = None
 
+WITH_MEMLIMIT = ("stream_decoder", "stream_decoder_mt", "auto_decoder", "alone_decoder", "lzip_decoder", "index_decoder",
+                 "file_info_decoder")
+
 def getters(lz, c):
     """What the informational functions say about a handle (none of them changes it: the limit is set to itself)."""
     import ctypes as C
     L = lz.L(); sp = C.byref(c.strm)
     # (lzma_get_check is documented as undefined except right after LZMA_NO_CHECK / UNSUPPORTED_CHECK / GET_CHECK)
+    # lzma_memusage of a re-initialised handle may include memory kept for reuse (threaded decoder: direct-mode Block
+    # decoder), so it is reported but not compared
     mu = L.lzma_memusage(sp); ml = L.lzma_memlimit_get(sp)
     mset = L.lzma_memlimit_set(sp, ml if ml else 1 << 30)
     pin = C.c_uint64(0); pout = C.c_uint64(0)
     L.lzma_get_progress(sp, C.byref(pin), C.byref(pout))
-    return dict(memusage=mu, memlimit=ml, memlimit_set=lz.retname(mset), progress=[pin.value, pout.value])
+    return dict(memlimit=ml, memlimit_set=lz.retname(mset), progress=[pin.value, pout.value])
 
-def record_history(lz, coders, name, rng, out, ncalls, prev=None, script=None, sample_kw=None):
+def record_history(lz, coders, name, rng, out, ncalls, prev=None, script=None, sample_kw=None, relimit=None):
     """Append events of one random call history on coder `name` to list `out`.
     prev: a Coder whose handle is re-initialised with this constructor WITHOUT lzma_end() (event Reinit).
     script: amounts of new input for the first calls (LZMA_RUN, all output space), then random as usual."""
@@ -100,14 +105,16 @@ def record_history(lz, coders, name, rng, out, ncalls, prev=None, script=None, s
         old_index_out = getattr(prev, "index_out", None)
         old_keep = getattr(prev, "keep_index", None)
         prev.index_out = None; prev.keep_index = None
+        # another memory usage limit than the previous use of the handle had (where the constructor takes one)
+        lim = {"memlimit": relimit or rng.choice([lz.UINT64_MAX, 1 << 30, 300 << 20, (1 << 31) + 12345])} if name in WITH_MEMLIMIT else {}
         st0 = rng.getstate()
-        c, data, r = coders.make_with_sample(name, rng, coder=prev)
+        c, data, r = coders.make_with_sample(name, rng, coder=prev, **lim)
         if r != lz.OK:
             raise MachineryError("constructor %s failed with %s on a reused handle" % (name, r))
         # A re-initialised handle is indistinguishable from a fresh one given to the same constructor with the same
         # arguments (Reinit = Init in the model): compare what the informational functions report
         st1 = rng.getstate(); rng.setstate(st0)
-        f, _, rf = coders.make_with_sample(name, rng)
+        f, _, rf = coders.make_with_sample(name, rng, **lim)
         assert rf == lz.OK and rng.getstate() == st1
         gre, gfr = getters(lz, c), getters(lz, f)
         f.end(); _release_extras(lz, f)
@@ -246,6 +253,16 @@ def record_all(ctx, nhist, ncalls):
         c.end(); _release_extras(lz, c)
         hists.append((a + "+" + b, events))
         problems += [(a + "+" + b, p, events) for p in probs + p2]
+    # The same constructor again on a handle that has just decoded a whole file, with another memory usage limit:
+    # nothing of the first use (sub-decoders of lzma_auto_decoder included) may answer for the second
+    for name in WITH_MEMLIMIT:
+        note(name + "+" + name)
+        events = []
+        probs, c = record_history(lz, coders, name, ctx.rng, events, 4, script=[10 ** 9, 0])
+        p2, c = record_history(lz, coders, name, ctx.rng, events, 4, prev=c, relimit=(1 << 30) + 4096 * ctx.rng.randint(0, 9))
+        c.end(); _release_extras(lz, c)
+        hists.append((name + "+" + name, events))
+        problems += [(name + "+" + name, p, events) for p in probs + p2]
     # The file-info decoder seeks: input chunks that end around file_size - 8192 (the first position it asks for),
     # around the start of the Index and around the ends of the Streams
     data = coders.encode_xz(coders.rand_data(ctx.rng, 26000, "rand"), preset=0, block_size=5000) + bytes(8) + \
